@@ -5,6 +5,6 @@ from contracts.ctors import UNITS_C06_CTORS
 # the worker loops (one output per input, failures included), the servlet forwarders and the ensemble's collector.
 from contracts.worker import UNITS_SINGLE, UNITS_BATCH
 from contracts.servlet import UNITS_FORWARD, UNITS_DEQUEUE
-from contracts.c11 import OnboardUnit, ServerEnterUnit, AServerEnterUnit
-UNITS = list(UNITS_C06) + list(UNITS_C06_CTORS) + [OnboardUnit, ServerEnterUnit, AServerEnterUnit] + list(UNITS_SINGLE) + list(UNITS_BATCH) + list(UNITS_FORWARD) + list(UNITS_DEQUEUE)
-SCENARIOS = [('', 'replay/scenarios/c06_backlog_overshoot.py')]
+from contracts.c11 import OnboardUnit, ServerEnterUnit, AServerEnterUnit, EnterServer, EnterServerThreadQ
+UNITS = list(UNITS_C06) + list(UNITS_C06_CTORS) + [OnboardUnit, ServerEnterUnit, AServerEnterUnit, EnterServer, EnterServerThreadQ] + list(UNITS_SINGLE) + list(UNITS_BATCH) + list(UNITS_FORWARD) + list(UNITS_DEQUEUE)
+SCENARIOS = [('', 'replay/scenarios/c06_backlog_overshoot.py'), ('', 'replay/scenarios/c06_idle_backlog.py')]
